@@ -102,9 +102,11 @@ PROPS = {
                         "D5: AA is claimed for replies whose whole chain stays in authoritative zones"],
     },
     "C10": {
-        "modules": ["Resolved.Props.C10"],
+        "modules": ["Resolved.Props.C10", "Resolved.Props.C10Machine"],
         "streams": [{"name": "resolve-local", "quick": 6000, "thorough": 120000},
-                    {"name": "resolve-universe", "quick": 800, "thorough": 20000}],
+                    {"name": "resolve-universe", "quick": 800, "thorough": 20000},
+                    {"name": "resolve-faults", "quick": 1200, "thorough": 30000},
+                    {"name": "upstream", "quick": 8000, "thorough": 200000}],
         "trivial_tags": [r":bad-op"],
         "assumptions": ["D7: upstream servers list alias chains in chain order and answer with records of the asked type"],
     },
@@ -118,7 +120,8 @@ PROPS = {
     "C08": {
         "modules": ["Resolved.Props.C08"],
         "streams": [{"name": "resolve-faults", "quick": 3000, "thorough": 80000},
-                    {"name": "resolve-universe", "quick": 600, "thorough": 10000}],
+                    {"name": "resolve-universe", "quick": 600, "thorough": 10000},
+                    {"name": "upstream", "quick": 8000, "thorough": 200000}],
         "trivial_tags": [r":bad-op", r"/x0$"],
         "assumptions": ["tokio's timeout/sleep on the paused clock stand for the real timers; that a future is cancelled at an await point is tokio's contract"],
     },
@@ -144,7 +147,9 @@ PROPS = {
     "C19": {
         "modules": ["Resolved.Props.C19"],
         "bins": ["resolved"],
-        "streams": [{"name": "reload", "quick": 60, "thorough": 1500, "shards": 4}],
+        "streams": [{"name": "reload", "quick": 60, "thorough": 1500, "shards": 4},
+                    {"name": "reload-blocked", "quick": 4, "thorough": 60, "shards": 2},
+                    {"name": "config-load", "quick": 600, "thorough": 20000}],
         "trivial_tags": [r":bad-op", r"reload/ok0/failed0"],
         "assumptions": [
             "signal delivery, the tokio RwLock and the file system are observed on the real binary only",
